@@ -20,5 +20,9 @@ CONFIG = {
     "assumptions": [
         "appended declarations use names that do not collide with existing ones (zzNew…, ZzNew…): a colliding append is an invalid program, not an evolution step",
         "edits on entity parts (data, statuses, events, commands, summaries) go beyond the property's quantifier and are included as extra coverage",
+        "theorem level: all three edit kinds are package-level theorems through Edit.apply and both compilePkg results (C13_append_decl_fresh, "
+        "C13_append_field_pkg, C13_append_option_pkg); field / option appends are proved for top-level containers (path [el i]), the option case for an "
+        "enum no field of the package refers to by name (the enum's export entry carries its value names); deeper paths, request / response / topic "
+        "containers are covered per container (C13_append_field, _ctx, _nested) and by the stream",
     ],
 }
